@@ -45,7 +45,7 @@ ValidPair(v, f) ==
     [] OTHER       -> f \in {"CBC", "RC4"}
 ImplicitIV(v) == v \in {"SSL30", "TLS10"}
 
-VARIABLES ver, fam, abbrev, hsInLog, pad, tickets, group, fault, hrr, early,   \* world (chosen in Init)
+VARIABLES ver, fam, abbrev, hsInLog, pad, tickets, group, fault, hrr, early, compat,   \* world (chosen in Init)
           ku,                                                              \* directions that sent a KeyUpdate (environment)
           pc,                   \* position in the handshake script
           snd,                  \* sender cipher state per direction
@@ -60,7 +60,7 @@ VARIABLES ver, fam, abbrev, hsInLog, pad, tickets, group, fault, hrr, early,   \
           lost,                 \* a record was dropped from the capture (KF_LossResync taken)
           hist                  \* records in capture order (history, for behaviour export)
 
-world == <<ver, fam, abbrev, hsInLog, pad, tickets, group, fault, hrr, early>>
+world == <<ver, fam, abbrev, hsInLog, pad, tickets, group, fault, hrr, early, compat>>
 envv  == <<pc, snd, nApp, nextId, sentApp, lost, alerted, ku>>
 implv == <<chSeen, canDec, hasDec, ccs, rcv, exported, crashed>>
 implAll == <<implv, metaOut>>
@@ -77,9 +77,11 @@ Full12 == <<R("c","CH"), R("s","SH")>>
           \o <<R("s","CCS"), R("s","FIN")>>
 Abbr12 == <<R("c","CH"), R("s","SH"), R("s","CCS"), R("s","FIN"), R("c","CCS"), R("c","FIN")>>
 Full13 == (IF hrr THEN <<R("c","CH"), R("s","SH"), R("s","CCS"), R("c","CCS"), R("c","CH"), R("s","SH")>>     \* the HRR is ServerHello-shaped
-                 ELSE <<R("c","CH"), R("s","SH"), R("s","CCS")>>)
+                 ELSE <<R("c","CH"), R("s","SH")>> \o (IF compat THEN <<R("s","CCS")>> ELSE <<>>))
           \o (IF group = "flight" THEN <<R("s","F13")>> ELSE <<R("s","H13"), R("s","H13"), R("s","H13"), R("s","F13")>>)
-          \o <<R("c","CCS"), R("c","F13")>>
+          \o (IF compat THEN <<R("c","CCS")>> ELSE <<>>) \o <<R("c","F13")>>
+\* compat = FALSE: TLS 1.3 without middlebox-compatibility mode (RFC 8446 D.4: empty legacy_session_id, NO ChangeCipherSpec records at all) --
+\* nothing in a TLS 1.3 connection may hinge on having seen one
 Script == IF ver = "TLS13" THEN Full13 ELSE IF abbrev THEN Abbr12 ELSE Full12
 \* early application data: the side whose Finished goes out first may send application data before the peer's Finished arrives
 \* (TLS <= 1.2 False Start, RFC 7918: the client after its Finished; abbreviated handshake and TLS 1.3 0.5-RTT data: the server)
@@ -228,6 +230,7 @@ Init == /\ ver \in Vers /\ fam \in Fams /\ ValidPair(ver, fam)
         /\ fault \in ({"none"} \cup Faults)
         /\ hrr \in (IF ver = "TLS13" /\ "hrr" \in Unsup THEN BOOLEAN ELSE {FALSE}) /\ ku = {}
         /\ early \in (IF EarlyData /\ fault = "none" THEN BOOLEAN ELSE {FALSE})
+        /\ compat \in (IF ver = "TLS13" /\ ~hrr THEN BOOLEAN ELSE {TRUE})
         /\ pc = Start /\ snd = [x \in Dir |-> Fresh("none")]
         /\ nApp = 0 /\ nextId = 1 /\ sentApp = [x \in Dir |-> <<>>] /\ lost = FALSE /\ alerted = "none"
         /\ chSeen = FALSE /\ canDec = FALSE /\ hasDec = FALSE /\ ccs = [x \in Dir |-> FALSE]
@@ -270,7 +273,7 @@ View == <<world, envv, implv>>
 
 Emit == (EmitOn /\ Done) =>
    PrintT(ToJson([ver |-> ver, fam |-> fam, abbrev |-> abbrev, hsInLog |-> hsInLog, pad |-> pad, tickets |-> tickets,
-                  group |-> group, fault |-> fault, lost |-> lost, hrr |-> hrr, ku |-> ku, early |-> early,
+                  group |-> group, fault |-> fault, lost |-> lost, hrr |-> hrr, ku |-> ku, early |-> early, compat |-> compat,
                   hist |-> [i \in 1..Len(hist) |-> [d |-> hist[i].d, k |-> hist[i].k, len |-> hist[i].len, id |-> hist[i].id]],
                   exported |-> exported, sentApp |-> sentApp]))
 =============================================================================
